@@ -269,6 +269,11 @@ impl Prop for C10 {
         k2.stop = false;
         for _ in 0..n {
             let op = choose(rng, a.state(), &h, &k2, just_replied);
+            if ctx.announce_all {
+                let mut hh = history.clone();
+                hh.push(op.clone());
+                ctx.announce(&Case { history: hh, flags: (false, false), seed: 0, replies: vec![], cap: 400 });
+            }
             if just_replied && matches!(op, Op::Break) && a.state() == St::Running {
                 ctx.count("fault.break_after_reply_before_consume");
             }
